@@ -73,7 +73,7 @@ class ViewJobs(Jobs):
         # a process changed state while some live instance had not (yet) admitted another one (or itself): the known
         # handshake windows (see known_findings.json) - the signature says so.  A peer that is CHECKED is admitted
         # (publications are sent to it and accepted from it): it is not part of those windows.
-        changed = ev[0] in ('proc', 'ustart', 'ustop') or any(t['name'] in ('start_args', 'startProcess', 'stopProcess')
+        changed = ev[0] in ('proc', 'ustart', 'ustop', 'udisable', 'uenable') or any(t['name'] in ('start_args', 'startProcess', 'stopProcess')
                                                                for t in obs['transport'])
         if changed and not w.budget.get('overlap'):
             live = w.live()
@@ -123,6 +123,23 @@ class ViewJobs(Jobs):
                 if truth and not (truth <= stopping) and pv['statename'] not in RUN_NAMES:
                     return {'clause': 'running-process-shown-stopped', 'signature': 'C12:running-shown-stopped',
                             'observer': i, 'process': ns, 'shown': pv['statename'], 'truth': sorted(truth)}
+        # the enabled / disabled flag of every program on every instance seen RUNNING is the true one
+        for i in live:
+            for j in live:
+                if seen[i].get(w.idents[j]) != 'RUNNING' or frozenset((i, j)) in w.cut:
+                    continue
+                for ns, p in w.sups[j].procs():
+                    a_, p_ = ns.split(':')
+                    try:
+                        proc = w.sups[i].context.applications[a_].processes[p_]
+                    except KeyError:
+                        continue
+                    info = proc.info_map.get(w.idents[j])
+                    truth = bool(p.supvisors_config.program_config.disabled)
+                    if info is not None and bool(info.get('disabled')) != truth:
+                        return {'clause': 'disabled-flag-differs-from-truth', 'signature': 'C12:disabled-vs-truth',
+                                'observer': i, 'instance': j, 'process': ns, 'shown': bool(info.get('disabled')),
+                                'truth': truth}
         for a in live:
             for b in live:
                 if a >= b or frozenset((a, b)) in w.cut:
@@ -178,6 +195,9 @@ def configs(t):
              triggers=[['rpc', 0, 'start_application', ['LESS_LOADED', 'A', False]]], user_events=[], T=3, D=1,
              behaviours=['run', 'exit_bad', 'backoff', 'giveup'], cost=6),
     ]
+    # a program is disabled on an instance that has just joined (CHECKED for the others, or for itself)
+    out.append(base('n3-late-join-disable', n=3, late=[2], T=2, U=1, behaviours=['run'], cost=8,
+                    user_events=[['udisable', 2, 'U:u'], ['udisable', 0, 'U:v']]))
     # a duplicate conciliated by Supvisors: every instance must end with the view of the survivors
     for st in ('SENICIDE', 'INFANTICIDE', 'STOP', 'RESTART'):
         out.append(base(f'n2-conciliation-{st}', apps=[app('A', 0, [prog('a', 1)])],
